@@ -96,18 +96,9 @@ func (e *kvElection) handleValidationFailure(err error) {
 		)...,
 	)
 
-	e.becomeFollower()
-
-	e.mu.RLock()
-	onDemote := e.onDemote
-	e.mu.RUnlock()
-
-	if onDemote != nil {
-		log.Info("leader_demoted",
-			append(e.logWithContext(e.ctx),
-				zap.String("reason", "token_validation_failure"),
-			)...,
-		)
-		onDemote()
+	// Another mechanism (or Stop) may have ended this term already: OnDemote
+	// runs once per term.
+	if e.becomeFollower() {
+		e.notifyDemoted("token_validation_failure")
 	}
 }
